@@ -47,6 +47,9 @@ def plan(tier, seed):
     specs += [{"mode": "tokseq", "seed": seed, "shard": i, "nshards": 8, "maxlen": 2 if q else 3,
                "sample": 900 if q else 20000} for i in range(8)]
     specs += [{"mode": "directives", "shard": i, "nshards": 4} for i in range(4)]
+    specs += [{"mode": "deep", "tier": tier}]
+    # files made of declaration-shaped statements (G-DECL)
+    specs += [{"mode": "decls", "seed": seed, "shard": i, "n": 1200 if q else 40000} for i in range(16)]
     return specs
 
 
@@ -91,6 +94,45 @@ def run_tokseq(spec):
             judge(sh, name, src, {"tokens": list(seq), "context": ctx}, "tokseq")
     sh.sample({"token_sequences": "all sequences up to length %d over %d token spellings + %d sampled of length 3-6, in 5 contexts" % (
         spec["maxlen"], len(TOKS), spec["sample"])})
+    return sh
+
+
+def run_decls(spec):
+    from nv.gen import decls
+    sh = Shard(max_per_sig=3)
+    r = random.Random("decls/%s/%d" % (spec["seed"], spec["shard"]))
+    for _ in range(spec["n"]):
+        name, src = decls.source(r)
+        judge(sh, name, src, {}, "decls")
+    sh.sample({"declaration_shaped_file": decls.source(random.Random(7))[1][:200]})
+    return sh
+
+
+DEEP_SHAPES = {
+    "parentheses": lambda n: "int\tf(int a)\n{\n\treturn (" + "(" * n + "a" + ")" * n + ");\n}\n",
+    "braces": lambda n: "int\tg_a[] = " + "{" * n + "1" + "}" * n + ";\n",
+    "brackets": lambda n: "int\tf(int *a)\n{\n\treturn (a" + "[a" * n + "[0]" + "]" * n + ");\n}\n",
+    "control_structures": lambda n: "int\tf(int a)\n{\n" + "".join("\t" * (k + 1) + "if (a)\n" for k in range(n)) + "\t" * (n + 1) + "a = 1;\n\treturn (a);\n}\n",
+    "blocks": lambda n: "int\tf(int a)\n{\n" + "".join("\t" * (k + 1) + "{\n" for k in range(n)) + "".join("\t" * (n - k) + "}\n" for k in range(n)) + "\treturn (a);\n}\n",
+    "if_expression": lambda n: "#if " + "(" * n + "1" + ")" * n + "\n# define A 1\n#endif\n",
+    "call_arguments": lambda n: "int\tf(int a)\n{\n\treturn (" + "f(" * n + "a" + ")" * n + ");\n}\n",
+    "unclosed_parentheses": lambda n: "int\tf(int a)\n{\n\treturn (" + "(" * n + "a);\n}\n",
+    "pointer_declarator": lambda n: "int\t" + "(*" * n + "g_a" + ")" * n + ";\n",
+}
+
+
+def run_deep(spec):
+    """very deep nesting of every kind: an answer (verdict or one-line fatal diagnostic), never an internal exception"""
+    sh = Shard(max_per_sig=2)
+    for shape, f in DEEP_SHAPES.items():
+        slow = shape in ("control_structures", "blocks")        # the tool is cubic in the depth of these
+        depths = (50, 200, 400) + ((1000,) if spec.get("tier") == "thorough" else ()) if slow else \
+            (50, 200, 500, 900, 1000, 1500) + ((5000,) if spec.get("tier") == "thorough" else ())
+        if shape == "pointer_declarator":
+            depths = (50, 200, 400, 1000, 1500)
+        for n in depths:
+            for name in ("t.c", "t.h"):
+                judge(sh, name, f(n), {"nesting": n, "shape": shape}, "deep")
     return sh
 
 
@@ -163,6 +205,14 @@ def sig_of(r):
 
 def judge(sh, name, src, case_extra, kind):
     r = core.run_confirm(name, src)
+    if r.outcome == "hang" and "nesting" in case_extra:
+        # the tool's cost grows with the cube of the nesting depth on some shapes: the linear step budget does not
+        # apply to this family; a budget of n^2 steps per character decides, and overrunning that one is inconclusive
+        n = case_extra["nesting"]
+        r = core.api_run(name, src, budget=mon.budget_full(len(src)) + 40 * n * n * len(src))
+        if r.outcome == "hang":
+            sh.inconclusive.append("deep nesting (%s, %d) exceeded the quadratic step budget" % (case_extra.get("shape"), n))
+            return r
     s = r.sess
     nontriv = s.asserts.get("lex.progress", 0) > 0 or len(s.diags) > 0
     sh.case(name + "\0" + src, nontrivial=nontriv)
@@ -172,12 +222,14 @@ def judge(sh, name, src, case_extra, kind):
         sg = sig_of(r)
         case = {"name": name, "src": src, "mode": "api"}
         case.update(case_extra)
-        sh.violation("pipeline_" + r.outcome, (kind,) + sg[1:], case,
-                     {"input_class": kind, "outcome": r.outcome, "exc": sg[1] if r.outcome == "crash" else None,
-                      "where": sg[-2], "rule": sg[-1]})
+        detail = {"input_class": kind, "outcome": r.outcome, "exc": sg[1] if r.outcome == "crash" else None,
+                  "where": sg[-2], "rule": sg[-1]}
+        if "nesting" in case_extra:
+            detail["nesting"] = case_extra["nesting"]
+        sh.violation("pipeline_" + r.outcome, ((kind,) + sg[1:]) if "nesting" not in case_extra else (kind, sg[1], case_extra.get("shape")), case, detail)
     if s.lex_exc is not None:
         sh.count("lexer.exception_inside_pipeline")
-    if len(src) > 200 and r.outcome == "ok":
+    if len(src) > 200 and r.outcome == "ok" and kind != "deep":
         sh.cover("calibration_ratio", int(r.steps / float(len(src))))
     return r
 
@@ -338,6 +390,10 @@ def run_shard(spec):
         return run_tokseq(spec).result()
     if spec["mode"] == "directives":
         return run_directives(spec).result()
+    if spec["mode"] == "decls":
+        return run_decls(spec).result()
+    if spec["mode"] == "deep":
+        return run_deep(spec).result()
     sh = lexpass.run_pass(spec, kinds=set(), exc_is_violation=True, clock=True,
                           nontrivial=lambda s, src: s.asserts.get("lex.progress", 0) > 0 or len(s.diags) > 0)
     sh.count("lexer.total", sh.evaluations)
